@@ -137,6 +137,27 @@ func boundaryCases() []GCase {
 		}
 		return obsWith(perf, nil, hist)
 	})})
+	// more than 100 digests at quorum, some of them being two versions of ONE unit of work: the work-id
+	// de-duplication has to happen before the cap (102 / 110 digests over exactly 100 units: nothing may be cut;
+	// 115 digests over 110 units: only the cap cuts)
+	for _, v := range []struct{ units, vers, shift int }{{100, 2, 0}, {100, 10, 0}, {110, 5, 10}} {
+		v := v
+		add(GCase{Family: "cap-100-two-versions-of-a-unit", N: 4, F: 1, Seq: uint64(23 + v.vers), Digest: 1 + v.vers%2, Obs: nObs(4, func(i int) GObs {
+			var perf []GRes
+			lo := 0
+			if i >= 2 {
+				lo = v.shift
+			}
+			for j := lo; j < lo+100 && j < v.units; j++ {
+				g := honest(1, 3200+j%6, j+1)
+				if i >= 2 && j >= v.shift && j < v.shift+v.vers {
+					g.PD = fmt.Sprintf("%02x%02x", 0xa0+j%16, j) // the other version, vouched for by oracles 2 and 3
+				}
+				perf = append(perf, g)
+			}
+			return obsWith(perf, nil, hist)
+		})})
+	}
 	// two quorum results for one work id (same upkeep, different data)
 	{
 		a := honest(0, 7, 0)
@@ -342,7 +363,44 @@ func boundaryCases() []GCase {
 	return cs
 }
 
+// randomCapCase: around the 100-result cap, with some units of work present in two versions that both reach f+1
+func randomCapCase(r *Rng) GCase {
+	units := 96 + r.Intn(20)
+	vers := r.Intn(9)
+	shift := 0
+	if units > 100 {
+		shift = units - 100
+	}
+	n, f := 4, 1
+	if r.Chance(1, 3) {
+		n, f = 7, 2
+	}
+	half := f + 1
+	hist := chain(95, 100, 1)
+	c := GCase{Family: "random-near-cap", N: n, F: f, Seq: r.U64() % 100000, Digest: 1 + r.Intn(2)}
+	vstart := r.Intn(90)
+	for i := 0; i < 2*half; i++ {
+		var perf []GRes
+		lo := 0
+		if i >= half {
+			lo = shift
+		}
+		for j := lo; j < lo+100 && j < units; j++ {
+			g := honest(1, 3300+j%9, j+1)
+			if i >= half && j >= lo+vstart && j < lo+vstart+vers {
+				g.PD = fmt.Sprintf("%02x%02x", 0xb0+j%16, j)
+			}
+			perf = append(perf, g)
+		}
+		c.Obs = append(c.Obs, obsWith(perf, nil, hist))
+	}
+	return c
+}
+
 func randomCase(r *Rng) GCase {
+	if r.Chance(1, 8) {
+		return randomCapCase(r)
+	}
 	n := []int{4, 4, 7, 7, 10, 13, 31}[r.Intn(7)]
 	f := r.Intn((n-1)/3 + 1)
 	m := 2*f + 1 + r.Intn(n-2*f)
